@@ -122,7 +122,7 @@ PROPS["C09"] = {
     "replay_hint": "compile the named source; inspect _index_override / _additional_args of CodeData.from_code(c)",
 }
 PROPS["C05"] = {
-    "imports": VIEW_IMPORTS, "prelude": "Definition cfg := Cfg{TAG}.cfg.",
+    "imports": VIEW_IMPORTS + " Proofs.C11_Statements Proofs.C01_Statements Proofs.C03_Statements Proofs.C03b_Statements Proofs.C03c_Statements", "prelude": "Definition cfg := Cfg{TAG}.cfg.",
     "level_text": "TODO", "level_note": "TODO", "trusted_base": COMMON_TB + ["CPython's evaluation of bytecode (exec, sys.settrace) for the behavioural clause: outside every theorem"], "assumptions": [],
     "rule": "every corpus / generated code object: symbolic equivalence (dis view, header) of c and normalize().to_code(); generated terminating programs executed with stdout, exception and line trace compared; "
             "distinct = distinct (co_code, name, firstlineno, line table)",
@@ -165,14 +165,13 @@ PROPS["C06"] = {
 }
 
 PROPS["C03"] = {
-    "imports": VIEW_IMPORTS + " Proofs.C01_Statements Proofs.C03_Statements Proofs.C03b_Statements", "prelude": "Definition cfg := Cfg{TAG}.cfg.",
-    "level_text": "TODO", "level_note": "TODO", "trusted_base": COMMON_TB + ["dis / co_lines / PyCode_Addr2Line of the running interpreter as readers of the emitted code"],
+    "imports": VIEW_IMPORTS + " Proofs.C11_Statements Proofs.C01_Statements Proofs.C03_Statements Proofs.C03b_Statements Proofs.C03c_Statements", "prelude": "Definition cfg := Cfg{TAG}.cfg.",
+    "level_text": "Theorem (K2) for every configuration and every datum satisfying the boolean data_wf (no private override fields, operand kinds fit the opcodes, jumps designate existing blocks, relative jumps forward): the emitted code object is read back by CPython's disassembler and line reader (Spec/Dis.v, Spec/Lnotab.v) as the data's instruction stream - opcodes, resolved operands (constants up to key equality), jump targets as instruction indices with kind, lines - and the header fields say what the data says; to_code terminates for all data without negative size overrides (real termination proof of the jump-width fix-point); at exit every jump operand is the one the layout requires; gap and collision overrides raise. data_wf and the conclusion are evaluated on every generated datum (wf-monitor); full from_code_data outputs of model and code are compared on hand-built graphs incl. inconsistent overrides", "level_note": "the clause 're-decoding gives the data up to normalization' is decided by the oracle only; data with line_number=None is outside data_wf before 3.10 (the format cannot express it; to_code raises TypeError); a negative _n_args_override makes to_code loop forever (RelaxProofs.relax_diverges) - not well-formed data", "trusted_base": COMMON_TB + ["dis / co_lines / PyCode_Addr2Line of the running interpreter as readers of the emitted code"],
     "assumptions": ["line_number is not None on <= 3.9 (the co_lnotab format cannot express 'no line'; to_code raises TypeError there)"],
     "rule": "hand-built block graphs without override fields: 1-7 blocks of 1-260 instructions, absolute jumps in both directions, forward relative jumps, name tables of 3-300 (thorough 70000) entries, "
             "constants with colliding Python values (1/True/1.0, 0.0/-0.0, 'a'/b'a'), lines with deltas around +-127/128/255/300 and None (3.10), all signature shapes; plus gap / collision / negative overrides; "
             "distinct = distinct generated data",
     "replay_hint": "regenerate with harness/props/C03.py gen_data(random.Random('C03-<seed>-<ver>'), quick) at data.index",
-    "claimed": False,
 }
 
 PROPS["C15"] = {
@@ -193,6 +192,5 @@ PROPS["C16"] = {
 }
 
 NOT_CLAIMED = {
-    "C03": "check built (oracle on hand-built block graphs, full correspondence, premise monitor) and components proved (relaxation terminates and is consistent, tables sound, line tables read back by CPython's readers); the composed encoder-correctness theorem (K2) is not finished, so the property is not claimed at proof level yet",
     "C05": "check built (dis-view equivalence, executed programs, full correspondence); its theorem is K2 composed with normalize and K1 and is not finished, so the property is not claimed at proof level yet",
 }
